@@ -29,6 +29,8 @@ type Sched struct {
 	erng  rng
 	crng  rng // choices other than "which task runs": which ready select clause, which Cond waiter
 	lastChance bool
+	postJumps  int
+	rehomed    bool
 	tasks []*Task
 	back  chan *Task
 	step  int
@@ -57,6 +59,9 @@ type Sched struct {
 
 	Leaked int
 	Dead   *Deadlock
+	Adopted     int // tasks taken over from earlier runs of the process
+	OrphanPanic any // a panic in an adopted task: process-fatal in real Go
+	OrphanStack []byte
 }
 
 type ConflictRec struct {
@@ -83,8 +88,29 @@ type varState struct{ loc [2]locState }
 
 var sched *Sched
 
+// Goroutines that a call starts and that outlive it (a worker pool started on first use, a janitor) are part of the
+// process, not of the call: tasks that have not finished when a scheduler's run ends are adopted by the next scheduler
+// of the process, in their blocked or runnable state, and go on under its decisions. All schedulers of a process share
+// one hand-back channel, so that a parked task finds its way back whichever scheduler resumes it.
+var (
+	backCh  = make(chan *Task)
+	orphans []*Task
+)
+
+// Orphans reports how many tasks of earlier runs are waiting to be adopted (evidence).
+func Orphans() int { return len(orphans) }
+
 func NewSched(cfg SchedCfg) *Sched {
-	s := &Sched{cfg: cfg, back: make(chan *Task), last: -1}
+	s := &Sched{cfg: cfg, back: backCh, last: -1}
+	for _, o := range orphans {
+		o.ID = len(s.tasks)
+		o.vc = nil
+		o.vcSet(o.ID, 1)
+		o.adopted = true
+		s.tasks = append(s.tasks, o)
+	}
+	s.Adopted = len(orphans)
+	orphans = nil
 	s.rng = rng{s: Mix(cfg.Seed, 11)}
 	s.erng = rng{s: Mix(cfg.Seed, 12)}
 	s.crng = rng{s: Mix(cfg.Seed, 13)}
@@ -144,6 +170,17 @@ func (t *Task) Done() bool { return t.done }
 
 // AddRoot registers a caller task (one Layout call).
 func (s *Sched) AddRoot(g *Group, body func()) *Task {
+	if !s.rehomed {
+		// long-lived goroutines of the process work for whoever calls next: they join the (first) call of this run -
+		// their work is charged to its budgets, their choices come from its streams, they share its allocation registry
+		s.rehomed = true
+		for _, o := range s.tasks {
+			if o.adopted && !o.done {
+				o.G = g
+				g.NTasks++
+			}
+		}
+	}
 	t := s.newTask(g, body, nil)
 	t.Root = true
 	return t
@@ -159,6 +196,10 @@ func (s *Sched) taskMain(t *Task) {
 				t.G.ChildPanic = r
 				t.G.ChildStack = t.PanicStack
 			}
+			if t.adopted && sched != nil && sched.OrphanPanic == nil {
+				sched.OrphanPanic = r
+				sched.OrphanStack = t.PanicStack
+			}
 		} else if !t.Finished {
 			t.Goexit = true
 		}
@@ -170,7 +211,7 @@ func (s *Sched) taskMain(t *Task) {
 			}
 		}
 		t.done = true
-		s.back <- t
+		backCh <- t
 	}()
 	t.body()
 	t.Finished = true
@@ -265,7 +306,16 @@ func (s *Sched) pick(r []*Task) *Task {
 func (s *Sched) Run() {
 	prev := sched
 	sched = s
-	defer func() { sched = prev; cur = nil }()
+	defer func() {
+		sched = prev
+		cur = nil
+		// whoever has not finished lives on in the process
+		for _, t := range s.tasks {
+			if !t.done {
+				orphans = append(orphans, t)
+			}
+		}
+	}()
 	for {
 		r := s.runnable()
 		if len(r) == 0 {
@@ -283,6 +333,10 @@ func (s *Sched) Run() {
 				}
 				s.Dead = &Deadlock{Msg: fmt.Sprintf("%d task(s) blocked forever", n)}
 				s.Leaked = n
+			} else if s.postJumps < 64 && s.jumpTimer(true) {
+				// every task has finished but a timer is still pending (bounded: a ticker never runs dry)
+				s.postJumps++
+				continue
 			}
 			return
 		}
@@ -480,6 +534,7 @@ func ResetSync() {
 	syncMu.Lock()
 	syncTab = map[any]*syncState{}
 	syncMu.Unlock()
+	orphans = nil
 	conds = map[*sync.Cond][]*condWaiter{}
 	atomics = map[unsafe.Pointer]*[]uint64{}
 	sticky = map[unsafe.Pointer][]*Task{}
